@@ -157,6 +157,7 @@ type run struct {
 	bUfrag, bPwd, aUfrag, aPwd string
 	wg                         sync.WaitGroup
 	gathering                  bool
+	srflx                      bool
 	noTick                     atomic.Bool
 	hammerStop                 atomic.Bool
 	blockNew                   atomic.Bool
@@ -191,6 +192,16 @@ func (r *run) newAgent(side int, fn *fnet) (*ice.Agent, error) {
 		opts = append(opts, ice.WithDisconnectedTimeout(60*time.Millisecond), ice.WithFailedTimeout(60*time.Millisecond))
 	} else {
 		opts = append(opts, ice.WithDisconnectedTimeout(30*time.Second), ice.WithFailedTimeout(30*time.Second))
+	}
+	if side == 0 && r.srflx {
+		// server-reflexive gathering towards a STUN server that never answers; the exchange's own
+		// timeout is far beyond the watchdog bound, so only Close can end it
+		uri, uerr := stun.ParseURI("stun:10.0.0.9:3478")
+		if uerr == nil {
+			opts = append(opts,
+				ice.WithCandidateTypes([]ice.CandidateType{ice.CandidateTypeHost, ice.CandidateTypeServerReflexive}),
+				ice.WithUrls([]*stun.URI{uri}), ice.WithSTUNGatherTimeout(10*time.Minute))
+		}
 	}
 	if side == 0 {
 		opts = append(opts, ice.WithBindingRequestHandler(func(_ *stun.Message, _, _ ice.Candidate, _ *ice.CandidatePair) bool {
@@ -1052,6 +1063,14 @@ func runCase(id string, toks []string, bound time.Duration) (obs []string, flags
 	for j := 0; j < 3; j++ {
 		r.modes[j], r.cerr[j] = geti(5+2*j)%3, geti(6+2*j) == 1
 	}
+	if len(h) > 11 {
+		r.srflx = geti(11) == 1
+	}
+	if r.srflx {
+		// the srflx gatherer relies on Close of its socket to abort the STUN exchange and on read
+		// deadlines being accepted: kernel-like sockets only
+		r.modes = [3]int{0, 0, 0}
+	}
 	seed := int64(0)
 	for _, t := range toks {
 		for _, ch := range t {
@@ -1227,6 +1246,26 @@ func (g *genr) gen(tier string) (toks []string, tag string) {
 		}
 
 		return toks, "lateregister"
+	}
+	if g.pick(16) == 0 {
+		// Close while the server-reflexive gatherer is inside a STUN exchange with a silent server
+		toks = []string{"cl1", itoa(g.pick(2)), "1", "0", "0", "0", "0", "0", "0", "0", "0", "1"}
+		n := 1 + g.pick(2)
+		ca := []string{"CA", itoa(n)}
+		for i := 0; i < n; i++ {
+			ca = append(ca, itoa(g.pick(2)))
+		}
+		sc := [][]string{{"GA", "0"}, {"SL", itoa(1 + g.pick(5))}}
+		if g.pick(2) == 0 {
+			sc = append(sc, []string{"GQ", itoa(g.pick(len(getterNames)))})
+		}
+		sc = append(sc, ca, []string{"CW"})
+		for _, s := range sc {
+			toks = append(toks, ";")
+			toks = append(toks, s...)
+		}
+
+		return toks, "srflxgather"
 	}
 	ctl := g.pick(2)
 	ncand := 1 + g.pick(3)
